@@ -501,11 +501,16 @@ pub struct Doc3 {
     pub c: AltA,
     /// structurally shared (hash-consed) view
     pub s: AltS,
+    /// AltA keeps every number in an f64: documents with integers it cannot hold exactly are compared over the other
+    /// views only
+    pub a_exact: bool,
 }
 
 impl Doc3 {
     pub fn new(v: &Value) -> Doc3 {
-        Doc3 { v: v.clone(), a: AltA::from_json(v), b: AltB::from_json(v), c: AltA::from_json(&sorted_members(v)), s: AltS::from_json(v) }
+        let a = AltA::from_json(v);
+        let a_exact = a.to_json() == *v && serde_json::to_string(&a.to_json()).ok() == serde_json::to_string(v).ok();
+        Doc3 { v: v.clone(), a, b: AltB::from_json(v), c: AltA::from_json(&sorted_members(v)), s: AltS::from_json(v), a_exact }
     }
 }
 
@@ -534,6 +539,9 @@ pub fn lockstep(acc: &mut Acc, q: &str, d: &Doc3, class: &str) {
     }
     let r4 = run_on(q, &d.s);
     for (name, r) in [("AltA (association-list objects, one number type)", &r1), ("AltB (strict numeric accessors)", &r2), ("AltS (equal sub-documents share storage)", &r4)] {
+        if name.starts_with("AltA") && !d.a_exact {
+            continue;
+        }
         if r != &r0 {
             acc.viol(
                 format!("{} on {}: serde_json::Value gives {:?} but the equivalent {} gives {:?}", q, d.v, r0, name, r),
@@ -545,7 +553,7 @@ pub fn lockstep(acc: &mut Acc, q: &str, d: &Doc3, class: &str) {
     // a view that presents the members of objects in another (sorted) order: the set of (path, value) results must
     // be the same - member order may only influence the order of results, never membership
     let r3 = run_on(q, &d.c);
-    if as_multiset(&r3) != as_multiset(&r0) {
+    if d.a_exact && as_multiset(&r3) != as_multiset(&r0) {
         acc.viol(
             format!("{} on {}: serde_json::Value gives {:?} but a view presenting the same members in sorted order gives {:?} (as multisets they must agree)", q, d.v, r0, r3),
             json!({"kind": "views", "class": format!("{} (member order)", class), "query": q, "doc": d.v}),
@@ -657,6 +665,31 @@ pub fn run(tier: &str) -> i32 {
     };
     // 2. comparison table
     let uni: Vec<Option<Value>> = crate::checks::compare::universe(th).into_iter().filter(|v| !v.as_ref().map_or(false, has_big_u64)).collect();
+    // integers beyond 2^53 that differ but round to one f64: whatever the engine answers for them, it must answer
+    // the same over every view (which accessor a view offers for an integer must not matter)
+    // (a second table: AltA cannot hold them and is left out of it, see Doc3::a_exact)
+    let mut uni_big: Vec<Option<Value>> = vec![None, Some(json!(1)), Some(json!(9007199254740991i64)), Some(json!(9007199254740992.0))];
+    for x in [9007199254740992i64, 9007199254740993, -9007199254740993, 9223372036854775807, 9223372036854775806] {
+        uni_big.push(Some(json!(x)));
+    }
+    uni_big.push(Some(json!([9007199254740993i64])));
+    uni_big.push(Some(json!([9007199254740992i64])));
+    uni_big.push(Some(json!({"a": 9007199254740992i64})));
+    uni_big.push(Some(json!({"a": 9007199254740993i64})));
+    let mut cells_big = vec![];
+    for x in &uni_big {
+        for y in &uni_big {
+            let mut m = Map::new();
+            if let Some(x) = x {
+                m.insert("x".into(), x.clone());
+            }
+            if let Some(y) = y {
+                m.insert("y".into(), y.clone());
+            }
+            cells_big.push(Value::Object(m));
+        }
+    }
+    let big2 = Doc3::new(&Value::Array(cells_big));
     let lits = crate::checks::compare::literals(th);
     let mut cells = vec![];
     for x in &uni {
@@ -701,6 +734,7 @@ pub fn run(tier: &str) -> i32 {
         .map(|q| {
             let mut acc = Acc::new();
             lockstep(&mut acc, q, &big, "comparison table");
+            lockstep(&mut acc, q, &big2, "comparison table (integers beyond 2^53)");
             acc.bump("comparison_cells", (uni.len() * uni.len()) as u64);
             acc
         })
